@@ -791,6 +791,25 @@ pub struct Case {
     /// (tests, examples, extracted blinded PSETs) instead of one blinded in this run
     #[serde(default)]
     pub corpus_vec: Option<u32>,
+    /// Some: the wallet assembles the blinded transaction itself from the public output constructors
+    /// (new_not_last_confidential / to_non_last_confidential / with_txout_secrets, then new_last_confidential /
+    /// with_secrets_last) instead of calling Transaction::blind
+    #[serde(default)]
+    pub manual: Option<ManualPlan>,
+}
+
+#[derive(Clone, Debug, Serialize, Deserialize, PartialEq, Eq)]
+pub struct ManualPlan {
+    pub seed: u64,
+    /// which marked output is blinded last (index among the marked ones, modulo)
+    pub last_pick: u32,
+    /// bit k set: surjection domain entry k is handed over as a bare commitment (SurjectionInput::Unknown) unless
+    /// it is the entry the output's asset has to come from
+    pub unknown_mask: u32,
+    /// two bits per non-last marked output: which constructor
+    pub api_mask: u64,
+    /// false: new_last_confidential, true: with_secrets_last with caller-chosen asset blinder and ephemeral key
+    pub last_with_secrets: bool,
 }
 
 pub struct CtWorld;
@@ -948,6 +967,176 @@ fn explicit_case(ctx: &mut Ctx, e: &ExplicitSpec) {
     }
 }
 
+/// The surjection domain as commitments, in the order of `w.secrets`: each input's spent asset, then its issued
+/// asset and its reissuance token when present.
+fn domain_commitments(w: &Workload) -> Vec<Asset> {
+    let mut v = Vec::new();
+    for (i, txin) in w.tx.input.iter().enumerate() {
+        v.push(w.spent[i].asset);
+        if txin.has_issuance() {
+            let (aid, tid) = issuance_ids_ref(txin);
+            if !txin.asset_issuance.amount.is_null() {
+                v.push(Asset::Explicit(aid));
+            }
+            if !txin.asset_issuance.inflation_keys.is_null() {
+                v.push(Asset::Explicit(tid));
+            }
+        }
+    }
+    v
+}
+
+/// A wallet that does what Transaction::blind does, by hand, through the public constructors; any marked output may
+/// be the one blinded last; domain entries the wallet "does not know" are passed as bare commitments.
+fn manual_blind(
+    ctx: &mut Ctx,
+    m: &ManualPlan,
+    w: &Workload,
+    tx: &mut Transaction,
+    rng: &mut SimRng,
+) -> Option<Result<BTreeMap<elements::CtLocation, (AssetBlindingFactor, ValueBlindingFactor, SecretKey)>, elements::BlindError>> {
+    use elements::{Address, AddressParams, CtLocation, CtLocationType, SurjectionInput};
+    let secp = secp();
+    let mut p = Prng::from_u64(m.seed);
+    let marked: Vec<usize> = (0..tx.output.len()).filter(|i| w.receivers[*i].is_some()).collect();
+    if marked.is_empty() {
+        return Some(Err(elements::BlindError::TooFewBlindingOutputs));
+    }
+    let last = marked[m.last_pick as usize % marked.len()];
+    let comms = domain_commitments(w);
+    if comms.len() != w.secrets.len() {
+        ctx.violate("HARNESS.manual", "domain", format!("domain model has {} entries, workload {}", comms.len(), w.secrets.len()));
+        return None;
+    }
+    let mut blinds = BTreeMap::new();
+    let mut out_secrets: Vec<TxOutSecrets> = Vec::new();
+    let mut k_api = 0;
+    // every other output first (explicit ones count with zero blinders), the chosen one last
+    for i in 0..tx.output.len() {
+        if i == last {
+            continue;
+        }
+        let (asset, value) = w.originals[i];
+        if w.receivers[i].is_none() {
+            out_secrets.push(TxOutSecrets::new(asset, AssetBlindingFactor::zero(), value, ValueBlindingFactor::zero()));
+            continue;
+        }
+        let pk = tx.output[i].nonce.commitment().expect("marked output carries the receiver key");
+        // the entry this output's asset comes from must be known; the others may be bare commitments
+        let source = w.secrets.iter().position(|s| s.asset == asset);
+        let dom: Vec<SurjectionInput> = (0..w.secrets.len())
+            .map(|k| if m.unknown_mask & (1 << (k % 32)) != 0 && Some(k) != source { SurjectionInput::Unknown(comms[k]) } else { SurjectionInput::from_txout_secrets(w.secrets[k]) })
+            .collect();
+        ctx.stats.add("manual.unknown_entries", dom.iter().filter(|d| matches!(d, SurjectionInput::Unknown(_))).count() as u64);
+        let api = (m.api_mask >> (2 * (k_api % 32))) & 3;
+        k_api += 1;
+        let spk = tx.output[i].script_pubkey.clone();
+        let res = match api {
+            0 | 3 => {
+                let params = match p.below(3) {
+                    0 => &AddressParams::LIQUID,
+                    1 => &AddressParams::ELEMENTS,
+                    _ => &AddressParams::LIQUID_TESTNET,
+                };
+                let Some(addr) = Address::from_script(&spk, Some(pk), params) else {
+                    ctx.violate("HARNESS.manual", "address", "workload script is not addressable".into());
+                    return None;
+                };
+                ctx.sig("api.new_not_last");
+                ctx.call("TxOut::new_not_last_confidential", 0, || TxOut::new_not_last_confidential(rng, secp, value, &addr, asset, &dom))?
+            }
+            1 => {
+                ctx.sig("api.to_non_last");
+                let o = tx.output[i].clone();
+                ctx.call("TxOut::to_non_last_confidential", 0, || o.to_non_last_confidential(rng, secp, pk, &dom))?
+            }
+            _ => {
+                ctx.sig("api.with_txout_secrets");
+                let (abf, vbf, esk) = (gen::abf(&mut p), gen::vbf(&mut p), gen::secret_key(&mut p));
+                ctx.call("TxOut::with_txout_secrets", 0, || TxOut::with_txout_secrets(rng, secp, spk, pk, esk, TxOutSecrets::new(asset, abf, value, vbf), &dom))?.map(|o| (o, abf, vbf, esk))
+            }
+        };
+        match res {
+            Ok((o, abf, vbf, esk)) => {
+                out_secrets.push(TxOutSecrets::new(asset, abf, value, vbf));
+                blinds.insert(CtLocation { input_index: i, ty: CtLocationType::Input }, (abf, vbf, esk));
+                tx.output[i] = o;
+            }
+            Err(e) => return Some(Err(elements::BlindError::ConfidentialTxOutError(e))),
+        }
+    }
+    let (asset, value) = w.originals[last];
+    let pk = tx.output[last].nonce.commitment().expect("marked output carries the receiver key");
+    let spk = tx.output[last].script_pubkey.clone();
+    let refs: Vec<&TxOutSecrets> = out_secrets.iter().collect();
+    let res = if m.last_with_secrets {
+        ctx.sig("api.with_secrets_last");
+        let (abf, esk) = (gen::abf(&mut p), gen::secret_key(&mut p));
+        ctx.call("TxOut::with_secrets_last", 0, || TxOut::with_secrets_last(rng, secp, value, spk, pk, asset, esk, abf, &w.secrets, &refs))?.map(|(o, vbf)| (o, abf, vbf, esk))
+    } else {
+        ctx.sig("api.new_last");
+        ctx.call("TxOut::new_last_confidential", 0, || TxOut::new_last_confidential(rng, secp, value, asset, spk, pk, &w.secrets, &refs))?
+    };
+    match res {
+        Ok((o, abf, vbf, esk)) => {
+            blinds.insert(CtLocation { input_index: last, ty: CtLocationType::Input }, (abf, vbf, esk));
+            tx.output[last] = o;
+        }
+        Err(e) => return Some(Err(elements::BlindError::ConfidentialTxOutError(e))),
+    }
+    Some(Ok(blinds))
+}
+
+/// The blinded transaction travels serialized to the verifier and to each receiver; C04 postconditions.
+/// Returns the transaction as received and whether it verified.
+fn verify_and_unblind(ctx: &mut Ctx, case: &Case, w: &Workload, tx: &Transaction, blinds: &BTreeMap<elements::CtLocation, (AssetBlindingFactor, ValueBlindingFactor, SecretKey)>) -> Option<(Transaction, bool)> {
+    let secp = secp();
+    let tx = tx.clone();
+    // ---- the transaction travels serialized to verifier and receivers
+    let Some(rx) = hop(ctx, &tx, &case.hop_write, &case.hop_read) else {
+        ctx.violate("C04.verify", "hop", "blinded transaction did not survive a serialize/deserialize hop".into());
+        return None;
+    };
+    ctx.check(rx == tx, "C04.verify", "hop-equal", || "blinded transaction changed across a serialize/deserialize hop".into());
+    let v = ctx.call("verify_tx_amt_proofs", 0, || rx.verify_tx_amt_proofs(secp, &w.spent));
+    let verified = matches!(v, Some(Ok(())));
+    if let Some(v) = &v {
+        ctx.check(v.is_ok(), "C04.verify", "rejected", || format!("blinded transaction does not verify: {:?}; spec {:?}", v, case.spec));
+    }
+    // ---- receivers
+    let marked: Vec<usize> = (0..rx.output.len()).filter(|i| w.receivers[*i].is_some()).collect();
+    let reported: Vec<usize> = blinds.keys().map(|l| l.input_index).collect();
+    ctx.check(reported == marked, "C04.unblind.secrets", "locations", || format!("blinder reported factors for outputs {:?}, marked outputs are {:?}", reported, marked));
+    for (i, out) in rx.output.iter().enumerate() {
+        let (asset, value) = w.originals[i];
+        match &w.receivers[i] {
+            None => {
+                ctx.check(out.asset == Asset::Explicit(asset) && out.value == Value::Explicit(value), "C04.commitments", "unmarked-changed", || format!("unmarked output {} changed by blinding", i));
+            }
+            Some(sk) => {
+                let conf = out.asset.is_confidential() && out.value.is_confidential() && out.nonce.is_confidential();
+                ctx.check(conf, "C04.commitments", "not-confidential", || format!("marked output {} is not fully confidential after blinding", i));
+                let Some(u) = ctx.call("TxOut::unblind", 0, || out.unblind(secp, *sk)) else { continue };
+                match u {
+                    Ok(s) => {
+                        ctx.check(s.asset == asset && s.value == value, "C04.unblind.secrets", "asset-value", || format!("output {} unblinds to ({}, {}), original ({}, {})", i, s.asset, s.value, asset, value));
+                        if let Some((abf, vbf, esk)) = blinds.iter().find(|(l, _)| l.input_index == i).map(|(_, v)| v) {
+                            ctx.check(s.asset_bf == *abf && s.value_bf == *vbf, "C04.unblind.secrets", "factors", || format!("output {}: unblinded factors differ from the ones the blinder reported", i));
+                            let a2 = Asset::new_confidential(secp, asset, *abf);
+                            let v2 = Value::new_confidential_from_assetid(secp, value, asset, *vbf, *abf);
+                            ctx.check(a2 == out.asset && v2 == out.value, "C04.commitments", "reproduce", || format!("output {}: reported factors do not reproduce the asset/value commitments", i));
+                            let n2 = Nonce::Confidential(PublicKey::from_secret_key(secp, esk));
+                            ctx.check(n2 == out.nonce, "C04.commitments", "nonce", || format!("output {}: nonce is not the public key of the reported ephemeral secret", i));
+                        }
+                    }
+                    Err(e) => ctx.violate("C04.unblind.secrets", "unblind-err", format!("output {} cannot be unblinded by its receiver: {:?}", i, e)),
+                }
+            }
+        }
+    }
+    Some((rx, verified))
+}
+
 /// One tamper per delivery on a real verifying transaction of the repository's vectors.
 fn corpus_tamper(ctx: &mut Ctx, case: &Case, n: u32) {
     let secp = secp();
@@ -1020,9 +1209,13 @@ impl World for CtWorld {
             hostile: false,
             zero_conf_asset_output: false,
             corpus_vec: None,
+            manual: None,
         };
         match scenario {
             "blind" => {}
+            "manual" => {
+                case.manual = Some(ManualPlan { seed: p.u64(), last_pick: p.u32(), unknown_mask: if p.coin() { 0 } else { p.u32() }, api_mask: p.u64(), last_with_secrets: p.coin() });
+            }
             "tamper-corpus" => {
                 let k = p.urange(6, 14);
                 case.tampers = (0..k).map(|_| Tamper::draw(p)).collect();
@@ -1085,7 +1278,15 @@ impl World for CtWorld {
             ctx.fault(&format!("rng.{}", match case.rng.personality { Personality::LowEntropy { .. } => "low_entropy", Personality::Sticky { .. } => "sticky", _ => "uniform" }), 1);
         }
         // ---- the wallet blinds
-        let r = ctx.call("Transaction::blind", 0, || tx.blind(&mut rng, secp, &w.secrets, false));
+        let r = match &case.manual {
+            Some(m) => {
+                let r = manual_blind(ctx, m, &w, &mut tx, &mut rng);
+                ctx.sig("manual");
+                ctx.nontrivial = true;
+                r
+            }
+            None => ctx.call("Transaction::blind", 0, || tx.blind(&mut rng, secp, &w.secrets, false)),
+        };
         ctx.stats.add("rng.draws", rng.draws);
         ctx.stats.add("rng.bytes", rng.bytes_served);
         let blinds = match r {
@@ -1106,48 +1307,7 @@ impl World for CtWorld {
             Some(Ok(b)) => b,
         };
         ctx.ev("blind.ok", blinds.len() as u64);
-        // ---- the transaction travels serialized to verifier and receivers
-        let Some(rx) = hop(ctx, &tx, &case.hop_write, &case.hop_read) else {
-            ctx.violate("C04.verify", "hop", "blinded transaction did not survive a serialize/deserialize hop".into());
-            return;
-        };
-        ctx.check(rx == tx, "C04.verify", "hop-equal", || "blinded transaction changed across a serialize/deserialize hop".into());
-        let v = ctx.call("verify_tx_amt_proofs", 0, || rx.verify_tx_amt_proofs(secp, &w.spent));
-        let verified = matches!(v, Some(Ok(())));
-        if let Some(v) = &v {
-            ctx.check(v.is_ok(), "C04.verify", "rejected", || format!("blinded transaction does not verify: {:?}; spec {:?}", v, case.spec));
-        }
-        // ---- receivers
-        let marked: Vec<usize> = (0..rx.output.len()).filter(|i| w.receivers[*i].is_some()).collect();
-        let reported: Vec<usize> = blinds.keys().map(|l| l.input_index).collect();
-        ctx.check(reported == marked, "C04.unblind.secrets", "locations", || format!("blinder reported factors for outputs {:?}, marked outputs are {:?}", reported, marked));
-        for (i, out) in rx.output.iter().enumerate() {
-            let (asset, value) = w.originals[i];
-            match &w.receivers[i] {
-                None => {
-                    ctx.check(out.asset == Asset::Explicit(asset) && out.value == Value::Explicit(value), "C04.commitments", "unmarked-changed", || format!("unmarked output {} changed by blinding", i));
-                }
-                Some(sk) => {
-                    let conf = out.asset.is_confidential() && out.value.is_confidential() && out.nonce.is_confidential();
-                    ctx.check(conf, "C04.commitments", "not-confidential", || format!("marked output {} is not fully confidential after blinding", i));
-                    let Some(u) = ctx.call("TxOut::unblind", 0, || out.unblind(secp, *sk)) else { continue };
-                    match u {
-                        Ok(s) => {
-                            ctx.check(s.asset == asset && s.value == value, "C04.unblind.secrets", "asset-value", || format!("output {} unblinds to ({}, {}), original ({}, {})", i, s.asset, s.value, asset, value));
-                            if let Some((abf, vbf, esk)) = blinds.iter().find(|(l, _)| l.input_index == i).map(|(_, v)| v) {
-                                ctx.check(s.asset_bf == *abf && s.value_bf == *vbf, "C04.unblind.secrets", "factors", || format!("output {}: unblinded factors differ from the ones the blinder reported", i));
-                                let a2 = Asset::new_confidential(secp, asset, *abf);
-                                let v2 = Value::new_confidential_from_assetid(secp, value, asset, *vbf, *abf);
-                                ctx.check(a2 == out.asset && v2 == out.value, "C04.commitments", "reproduce", || format!("output {}: reported factors do not reproduce the asset/value commitments", i));
-                                let n2 = Nonce::Confidential(PublicKey::from_secret_key(secp, esk));
-                                ctx.check(n2 == out.nonce, "C04.commitments", "nonce", || format!("output {}: nonce is not the public key of the reported ephemeral secret", i));
-                            }
-                        }
-                        Err(e) => ctx.violate("C04.unblind.secrets", "unblind-err", format!("output {} cannot be unblinded by its receiver: {:?}", i, e)),
-                    }
-                }
-            }
-        }
+        let Some((rx, verified)) = verify_and_unblind(ctx, case, &w, &tx, &blinds) else { return };
         // ---- the relay tampers (one fault per delivery)
         if !verified {
             return;
